@@ -138,13 +138,38 @@ def routine_stream(ctx):
                 F = f(Pop if nm == "sqrt" else Hop, Lanczos(max_iters=n, tol=1e-12))
                 truth(F, "unary." + nm + ".Lanczos", case)
 
+        def r_unary_all():
+            # every public matrix function on every dense path, on a PSD operator whose spectrum lies on BOTH sides of 1 (so that
+            # log is indefinite) and on an indefinite SelfAdjoint one; user functions that go negative / non-real on the spectrum
+            # (seeded change c05_m4: the Eigh path labelled its result PSD / SelfAdjoint whatever f is)
+            w, Q = np.linalg.eigh(H @ H.conj().T)
+            wn = np.exp(np.linspace(-1.5, 1.5, n)) if n > 1 else np.array([0.5])
+            P2 = cola.PSD(cola.ops.Dense((Q * wn) @ Q.conj().T))
+            algs = [("omitted", None), ("Auto", cola.linalg.Auto()), ("Eigh", cola.linalg.Eigh()), ("Eig", cola.linalg.Eig())]
+            fns = [("exp", lambda A, *a: cola.linalg.exp(A, *a)), ("log", lambda A, *a: cola.linalg.log(A, *a)),
+                   ("sqrt", lambda A, *a: cola.linalg.sqrt(A, *a)), ("isqrt", lambda A, *a: cola.linalg.isqrt(A, *a)),
+                   ("pow2.5", lambda A, *a: cola.linalg.pow(A, 2.5, *a)), ("pow-2", lambda A, *a: cola.linalg.pow(A, -2, *a)),
+                   ("apply(x-1)", lambda A, *a: cola.linalg.apply_unary(lambda x: x - 1.0, A, *a)),
+                   ("apply(exp(ix))", lambda A, *a: cola.linalg.apply_unary(lambda x: np.exp(1j * x), A, *a))]
+            for an, alg in algs:
+                for fn, f in fns:
+                    if fn.startswith("apply") and alg is None:
+                        continue
+                    F = f(P2, *([alg] if alg is not None else []))
+                    truth(F, f"unary.{fn}.{an}.psd", case)
+                for fn, f in (fns[0], fns[6]):
+                    if fn.startswith("apply") and alg is None:
+                        continue
+                    F = f(Hop, *([alg] if alg is not None else []))
+                    truth(F, f"unary.{fn}.{an}.selfadjoint", case)
+
         def r_inv_unitary():
             Ui = cola.linalg.inv(cola.Unitary(cola.ops.Dense(np.linalg.qr(B)[0])))
             truth(Ui, "inv.Unitary", case)
 
         # an exception is an observation: a routine group that raises has checked nothing, it is counted (with the class)
         # and does not abandon the other groups of the iteration; the caller fails the run when more than 2 % raised
-        for grp in (r_lanczos, r_arnoldi, r_eig_alg, r_eig_struct, r_svd_alg, r_svd_struct, r_unary, r_inv_unitary):
+        for grp in (r_lanczos, r_arnoldi, r_eig_alg, r_eig_struct, r_svd_alg, r_svd_struct, r_unary, r_unary_all, r_inv_unitary):
             ROUTINE_CALLS["groups"] += 1
             try:
                 grp()
